@@ -117,7 +117,7 @@ def run(v):
     v.add_tlc("MC_Grammar", t)
     cargo_build()
     mods = c07.modules_of(cases, d, "Gm")
-    nbad = checked = nsub = 0
+    nbad = checked = nsub = ndeep = 0
     devhits = {}
     seen_subs = set()
 
@@ -185,6 +185,24 @@ def run(v):
                 if diffs:
                     report(c, "descriptor constants of the extracted %s differ from the inline type in %s: %s" % (sub["name"], txt, "; ".join(diffs)[:300]),
                            {"asn1": txt, "expected": sub["consts"], "differences": diffs, "generated": rs["generated"]}, "sub_%03d.json")
+        # ... and every other definition the generator made (inline types extracted from inline types): model round trip and
+        # expansion; their constants are not predicted by Grammar!SubsOf (depth 1), the owner is the definition whose name leads
+        matched = {c["ast"]["name"] for c in chunk} | {s["name"] for c in chunk for s in c.get("subs", [])}
+        owners = sorted(chunk, key=lambda c: -len(c["ast"]["name"]))
+        for r in rows:
+            if r["name"] in matched or r["name"] in asnprint.PREAMBLE_NAMES:
+                continue
+            owner = next((c for c in owners if r["name"].startswith(c["ast"]["name"])), None)
+            ndeep += 1
+            if r["reparsed"].startswith("ERROR") or r["expanded"].startswith("ERROR"):
+                report(owner, "the attribute parser / expansion fails for the generated definition %s: %s" % (r["name"], (r["reparsed"] + r["expanded"])[:200]),
+                       {"generated": r["generated"], "owner": owner and asnprint.definition(owner["ast"])}, "deep_%03d.json")
+                continue
+            a, b = normalise_choice_tag(r["rust"], r["reparsed"])
+            if a != b:
+                report(owner, "re-parsed Rust model differs from the generator's model for the generated definition %s" % r["name"],
+                       {"generated": r["generated"], "generator_model": r["rust"], "reparsed_model": r["reparsed"],
+                        "owner": owner and asnprint.definition(owner["ast"])}, "deep_%03d.json")
     # ---- the mutation-free corpus of the repository's own test modules: model round trip only ----
     ncorpus = 0
     for i, text in enumerate(c13.corpus()):
@@ -216,6 +234,7 @@ def run(v):
     v.cov["distinct_nontrivial"] = len(cases)
     v.cov["corpus_definitions"] = ncorpus
     v.cov["extracted_inline_definitions"] = nsub
+    v.cov["other_generated_definitions"] = ndeep
     v.cov["rule"] = ("The %d definitions of Grammar.tla (see C07) and %d definitions of the repository's own test modules go through the real "
                      "pipeline at run time: parse -> resolve -> Model<Rust> -> generated Rust text -> attribute parser -> Model<Rust>; the two "
                      "Rust models must be equal per definition (Debug text; the derived tag of an untagged CHOICE is ignored). Then the macro "
